@@ -562,9 +562,9 @@ fn run_bld(ws: &[&str]) -> Option<(String, Vec<String>)> {
             None
         }
     };
-    let ok_call = |c: &&str| *c == "limit" || *c == "workers" || *c == "listen" || numarg(c, "blocking").is_some() || numarg(c, "backlog").is_some() || numarg(c, "timeout").is_some();
+    let ok_call = |c: &&str| *c == "limit" || *c == "maxconn" || *c == "workers" || *c == "listen" || *c == "mptcp:0" || *c == "mptcp:1" || numarg(c, "blocking").is_some() || numarg(c, "backlog").is_some() || numarg(c, "timeout").is_some();
     if !((1..=8).contains(&workers) && (1..=16).contains(&limit) && workers * limit <= n && n <= 64 && calls.iter().all(ok_call))
-        || calls.iter().filter(|c| **c == "limit").count() != 1
+        || calls.iter().filter(|c| **c == "limit" || **c == "maxconn").count() != 1
         || calls.iter().filter(|c| **c == "workers").count() != 1
         || calls.iter().filter(|c| **c == "listen").count() > 3
     {
@@ -628,6 +628,10 @@ fn run_bld(ws: &[&str]) -> Option<(String, Vec<String>)> {
                             .map_err(|e| format!("listen: {e}"))?
                     }
                     "limit" => b.max_concurrent_connections(limit),
+                    // the deprecated alias must configure the same limit
+                    #[allow(deprecated)]
+                    "maxconn" => b.maxconn(limit),
+                    "mptcp" => b.mptcp(if arg == 0 { actix_server::MpTcp::Disabled } else { actix_server::MpTcp::TcpFallback }),
                     "workers" => b.workers(workers),
                     "blocking" => b.worker_max_blocking_threads(arg),
                     "backlog" => b.backlog(arg as u32),
@@ -1810,6 +1814,10 @@ fn gen(a: &Args) {
         // further listeners registered before / after the limit is configured
         writeln!(w, "bld workers=1 limit=1 n=3 calls=listen,listen,workers,limit").unwrap();
         writeln!(w, "bld workers=2 limit=2 n=6 calls=listen,limit,listen,listen,workers rel=1").unwrap();
+        // the deprecated alias `maxconn`, and the neutral `mptcp` setter, in every position
+        writeln!(w, "bld workers=1 limit=1 n=3 calls=maxconn,workers").unwrap();
+        writeln!(w, "bld workers=2 limit=2 n=6 calls=mptcp:1,workers,backlog:16,maxconn,mptcp:0 rel=1").unwrap();
+        writeln!(w, "bld workers=1 limit=1 n=1 calls=limit,maxconn,workers").unwrap();
         writeln!(w, "bld workers=1 limit=1 n=1 calls=limit,workers rel=9").unwrap();
         writeln!(w, "bld workers=1 limit=1 n=1 calls=limit,workers,listen,listen,listen,listen").unwrap();
         let extra = if thorough { 40 } else { 4 };
@@ -1817,7 +1825,10 @@ fn gen(a: &Args) {
             let wk = 1 + rng.below(3) as usize;
             let l = 1 + rng.below(3) as usize;
             let n = wk * l + rng.below(4) as usize;
-            let mut calls = vec!["limit".to_string(), "workers".to_string()];
+            let mut calls = vec![if rng.chance(1, 3) { "maxconn".to_string() } else { "limit".to_string() }, "workers".to_string()];
+            if rng.chance(1, 3) {
+                calls.push(format!("mptcp:{}", rng.below(2)));
+            }
             for (k, hi) in [("blocking", 64usize), ("backlog", 256), ("timeout", 3)] {
                 if rng.chance(2, 3) {
                     calls.push(format!("{k}:{}", 1 + rng.below(hi)));
